@@ -185,7 +185,51 @@ func genHostileExpr(t *rapid.T, depth int) (interface{}, string) {
 }
 
 func genChainOp(t *rapid.T, healthyPossible bool) chainOp {
-	switch rapid.IntRange(0, 24).Draw(t, "op") {
+	switch rapid.IntRange(0, 26).Draw(t, "op") {
+	case 25:
+		// invalid Rolling configurations, in either order of the options
+		k := rapid.IntRange(0, 5).Draw(t, "rollcfg")
+		intervalFn := func(a, b int) bool { return a == b }
+		cfgs := [][]rolling.ConfigFunc{
+			{rolling.WindowSize(3), rolling.IntervalFunction("ti", intervalFn)},
+			{rolling.IntervalFunction("ti", intervalFn), rolling.WindowSize(3)},
+			{rolling.WindowSize(0)},
+			{rolling.WindowSize(-2), rolling.Position("start")},
+			{rolling.Position("middle")},
+			{rolling.WindowSize(2), rolling.Position("")},
+		}
+		return chainOp{desc: fmt.Sprintf("Rolling with invalid configuration %d", k), mustErr: true, run: func(qf qframe.QFrame) qframe.QFrame {
+			tq := qf.Apply(qframe.Instruction{Fn: 1, DstCol: "ti"})
+			if tq.Err != nil {
+				return tq
+			}
+			return tq.Rolling(func(x []int) int { return len(x) }, "n1", "ti", cfgs[k]...)
+		}}
+	case 26:
+		// a declared (strict) enum compared with a constant outside its value list: an error under every comparator,
+		// also negated and wherever in a clause tree it stands
+		comp := rapid.SampledFrom([]string{"=", "!=", "<", "<=", ">", ">="}).Draw(t, "strictcomp")
+		inv := rapid.Bool().Draw(t, "strictinv")
+		wrap := rapid.IntRange(0, 3).Draw(t, "strictwrap")
+		return chainOp{desc: fmt.Sprintf("strict enum %s undeclared constant (inverse=%v, wrap %d)", comp, inv, wrap), run: func(qf qframe.QFrame) qframe.QFrame {
+			fr := qframe.New(map[string]interface{}{"e": []string{"a", "b", "c", "a"}}, newqf.Enums(map[string][]string{"e": {"c", "a", "b"}}))
+			if fr.Err != nil {
+				panic("harness: " + fr.Err.Error())
+			}
+			var cl qframe.FilterClause = qframe.Filter{Column: "e", Comparator: comp, Arg: "zz", Inverse: inv}
+			switch wrap {
+			case 1:
+				cl = qframe.Not(cl)
+			case 2:
+				cl = qframe.Or(qframe.Filter{Column: "e", Comparator: "=", Arg: "a"}, cl)
+			case 3:
+				cl = qframe.And(qframe.Null(), cl)
+			}
+			if res := fr.Filter(cl); res.Err == nil {
+				panic(fmt.Sprintf("VIOLATION: declared enum filtered against the undeclared constant \"zz\" (%s) gave %d rows and no error", cl, res.Len()))
+			}
+			return qf
+		}}
 	case 24:
 		// two enum columns whose value lists hold the same values in another order are not of the same type:
 		// comparing them cell by cell is either refused (Err) or done by value - never silently by internal code
